@@ -172,6 +172,12 @@ func (r *roundRobinSelector) AddNode(node *databasev1.Node) {
 	}
 	r.mu.Lock()
 	defer r.mu.Unlock()
+	// Node updates arrive as another add event: a node must be listed once, otherwise
+	// coordinators that saw different numbers of updates disagree on index%len(nodes) and
+	// two replicas of a shard can land on the same node.
+	if slices.Contains(r.nodes, node.Metadata.Name) {
+		return
+	}
 	r.nodes = append(r.nodes, node.Metadata.Name)
 	sort.StringSlice(r.nodes).Sort()
 }
